@@ -664,6 +664,6 @@ def run(tier, seed):
 MANIFEST = {
     "engine": "K",
     "technique": "crash-point enumeration: every file-system mutation call (below CPython's buffering) of every storage operation is replaced in turn by a process kill, followed by a restart of a real StorageServer on the directory and an invariant check through its read API",
-    "text": "A prepared server (immutable shares with 0/1/4 leases, mutable shares with 0/4/5/6 leases x 0/5/40 bytes, two-share buckets) is copied for every (operation, crash index) pair of a catalogue of uploads, lease additions/renewals, mutable writes that grow the container, truncations, deletions and the expirer's cancel_lease calls. After the kill and restart: untouched shares byte-identical, lease-only targets read the same data, immutable shares absent or complete, incoming/ empty. Every crash index is covered; nothing is sampled.",
+    "text": "A prepared server (immutable shares with 0/1/4 leases, mutable shares with 0/4/5/6 leases x 0/5/40 bytes, two-share buckets) is copied for every (operation, crash index) pair of a catalogue of uploads, lease additions/renewals, mutable writes that grow the container, truncations, deletions and the expirer's cancel_lease calls. After the kill and restart: untouched shares byte-identical, lease-only targets read the same data, immutable shares absent or complete, incoming/ empty. Every crash index is covered; nothing is sampled. Prepared shares include a 20000-byte immutable and mutable share (larger than CPython's file buffer, so header and tail writes are separate system calls); sparse immutable shares of 2^32-1, 2^32 and 2^32+70000 bytes go through restart / add_lease / renew_lease outside the crash enumeration.",
     "note": "Process-kill model (completed syscalls persist, one write() atomic, no power loss). The statement is silent about the mutable share being written and about the leases of a lease target; those outcomes are counted only.",
 }
